@@ -521,7 +521,8 @@ func (s *state) buildMsg(act graph.M) sdk.Msg {
 		for _, d := range graph.List(x["ds"]) {
 			ds = append(ds, graph.Str(d))
 		}
-		sort.Strings(ds)
+		// the message lists denominations in any order: the harness sends them in descending order (the model's set has none)
+		sort.Sort(sort.Reverse(sort.StringSlice(ds)))
 		return &vtypes.MsgMoveAvailableVestingByDenoms{FromAddress: s.bech(graph.Str(x["from"])), ToAddress: s.bech(graph.Str(x["to"])), Denoms: ds}
 	case "updatedenom":
 		auth := graph.Str(act["auth"])
